@@ -2,7 +2,7 @@ SPECIFICATION Spec
 CONSTANTS
   PRICE <- PriceNonPos
   QTY = {1, 2}
-  FEE = {0, 1}
+  FEE <- FeeSigned
   MARK <- MarkNonPos
   MaxFills = 3
 INVARIANTS TypeOK SideSize Conservation FeesConserved
